@@ -763,6 +763,17 @@ func (c *Ctx) loopCut(node ast.Stmt, pos token.Pos, s *State, li loopInfo, iter 
 	for _, e := range iter(head) {
 		switch {
 		case e.kind == xFall || (e.kind == xContinue && (e.label == "" || e.label == li.label)):
+			if e.kind == xFall && len(c.con.Ats[fmt.Sprintf("loopend %d", li.ord)]) > 0 {
+				// `at loopend N`: the end of the loop body (scope: the body's last position)
+				endPos := pos
+				switch n := node.(type) {
+				case *ast.ForStmt:
+					endPos = n.Body.Rbrace - 1
+				case *ast.RangeStmt:
+					endPos = n.Body.Rbrace - 1
+				}
+				c.atClauses(e.s, fmt.Sprintf("loopend %d", li.ord), endPos)
+			}
 			checkSteps(e.s, "keep")
 			c.checkInvariants(e.s, li, "inv-keep", pos)
 			if variant0 != "" {
